@@ -126,7 +126,12 @@ func CSVDatabaseResolved returns (err)
   ensures @book-unreadable [C10] err == nil ==> !RdFailed(drd)
   ensures @book-malformed [C09] err == nil ==> (forall i int :: {RdLine(drd, i)} 0 <= i && i < RdN(drd) ==> !Malformed(drd, i, cc))
   ensures @reports-loss [C17] err == nil ==> (sinkFailed[out] ==> old(sinkFailed[out])) && sinkPend[out] == 0
+  // the exported book is the RESOLVED one: RDB is defined to be the book as Resolve leaves it, and every record
+  // handed to the reporter is still that book's record
+  ghost after call 1 Resolve { assume err == nil ==> DBIs(nl) }
+  ghost before call 1 Process { assert @exports-the-resolved-book [C13 C01] DBIs(nl) && #arg1 == mapget(nl, key) }
   loop 1 {
+    invariant @book DBIs(nl)
     invariant @count i == #it && len(keys) == #n && fresh(arr(keys)) && nl == at(pre1, nl) && mapval(nl) == at(pre1, mapval(nl))
     invariant @copied forall j int :: {keys[j]} 0 <= j && j < #it ==> keys[j] == #ord[j]
   }
@@ -139,6 +144,7 @@ func CSVDatabaseResolved returns (err)
     forget call
   }
   loop 2 {
+    invariant @book DBIs(nl)
     invariant @inv r == at(pre2, r) && r.output != nil && since(pre2, BufStep(r.output)) && bufSticky[r.output] == at(pre2, bufSticky[r.output]) && bufSink[r.output] == out && nl == at(pre2, nl) && mapval(nl) == at(pre2, mapval(nl)) && (forall k string :: {nl[k]} k in nl ==> nl[k] != nil)
     invariant @keys forall p int :: {keys[p]} 0 <= p && p < len(keys) ==> keys[p] in nl
   }
